@@ -300,6 +300,21 @@ def run_case(r, obs):
                          % (k, idx, [(E[d][i], E[d][i + 1]) for d, i in enumerate(idx)], got,
                             sub[idx], exp, what))
                 break
+        # values outside the edges are ignored - also their context: what the histogram carries
+        # besides context.variable is the context of the last value that fell into a cell
+        inside = [v for v in mkflow(r)
+                  if mon.scan_cell(E, (list(getter(gen.data_of(v))) if dim == 2
+                                       else [getter(gen.data_of(v))])) is not None]
+        exp_rest = copy.deepcopy(gen.ctx_of(inside[-1])) if inside else {}
+        if isinstance(ctx, dict):
+            rest = dict((kk, vv) for kk, vv in ctx.items() if kk != "variable")
+            obs.count("histogram_contexts_compared")
+            obs.check(rest == exp_rest,
+                      "histogram-context-not-from-the-last-value-inside-the-edges",
+                      "the yielded histogram has context %r (besides 'variable'); the last value "
+                      "that fell into a cell had context %r%s (%s)"
+                      % (rest, exp_rest, "; %d value(s) outside the edges were filled"
+                         % n_out if n_out else "", what))
         obs.check(isinstance(ctx, dict) and ctx.get("variable") == var_context,
                   "context-variable-does-not-describe-arg_var",
                   "context.variable = %r, the argument variable is %r"
@@ -434,8 +449,14 @@ def _map_bins(obs, lena, r, res, idxs, cells):
     mb = lena.structures.MapBins(mkseq(), drop_bins_context=r["drop"])
     bare_run_el = len(r["mapseq"]) == 1 and hasattr(mkseq(), "run") and \
         not isinstance(mkseq(), lena.core.LenaSequence)
+    # the same element meets further histograms with the same edges (the second result of a
+    # SplitIntoBins, the next block, the next run): every cell of every one of them is the
+    # sequence applied to that cell, nothing carried over
+    res2, res3 = copy.deepcopy(res), copy.deepcopy(res)
     try:
-        out = list(mb.run(iter([res, 3])))
+        out_all = list(mb.run(iter([res, 3, res2])))
+        out_b = list(mb.run(iter([res3])))
+        out = out_all[:n_exp] + out_all[n_exp:n_exp + 1]
     except TypeError as exc:
         if not (bare_run_el and "iterator" in str(exc)):
             raise
@@ -445,12 +466,15 @@ def _map_bins(obs, lena, r, res, idxs, cells):
                  "MapBins(%r) with a single Run element raised %r: the element's run() was "
                  "called with a list, not an iterator" % (r["mapseq"], exc))
         return
-    ok = len(out) == n_exp + 1 and out[-1] == 3
+    ok = len(out_all) == 2 * n_exp + 1 and out[-1] == 3 and len(out_b) == n_exp
     obs.check(ok, "map-bins-number-of-histograms",
-              "MapBins(%r) yielded %d values, expected %d histogram(s) + 1 unselected value"
-              % (r["mapseq"], len(out), n_exp))
+              "MapBins(%r) yielded %d and %d values for [h, 3, h] and [h], expected %d "
+              "histogram(s) per h + the unselected value"
+              % (r["mapseq"], len(out_all), len(out_b), n_exp))
     if not ok:
         return
+    later = [("second histogram of the same run", out_all[n_exp + 1:]),
+             ("histogram of a second run", out_b)]
     for k, y in enumerate(out[:-1]):
         if not (gen.has_ctx(y) and isinstance(y[0], lena.structures.histogram)):
             obs.fail("map-bins-value-shape", "yielded %r" % (y,))
@@ -474,6 +498,27 @@ def _map_bins(obs, lena, r, res, idxs, cells):
                          "sequence applied to that cell %r gives %r"
                          % (r["mapseq"], r["drop"], k, idx, got, cells_snap[j], exp))
                 return
+    for what, group in later:
+        for k, y in enumerate(group):
+            if not (gen.has_ctx(y) and isinstance(y[0], lena.structures.histogram)):
+                obs.fail("map-bins-value-shape", "yielded %r" % (y,))
+                return
+            for j, idx in enumerate(idxs):
+                try:
+                    got = lena.structures.get_bin_on_index(list(idx), y[0].bins)
+                except lena.core.LenaIndexError:
+                    obs.fail("map-bins-shape-differs", "no cell %r in %r" % (idx, y[0].bins))
+                    return
+                exp = expected[j][k]
+                if r["drop"]:
+                    exp = gen.data_of(exp)
+                obs.count("map_bins_cells_compared")
+                if not (got == exp):
+                    obs.fail("map-bins-cell-differs:later-histogram-through-the-same-element",
+                             "MapBins(%r, drop_bins_context=%r), %s: result %d cell %r = %r, the "
+                             "sequence applied to that cell %r gives %r"
+                             % (r["mapseq"], r["drop"], what, k, idx, got, cells_snap[j], exp))
+                    return
 
 
 def _bad(r, obs, lena):
